@@ -188,6 +188,7 @@ Section Chain.
           | inl found =>
               let n2 := match i_ref d with inl _ => found | inr _ => n1 end in
               if existsb (str_eqb n2) names then inl (dset n2 (inl n2) acc) else inr EOther
+          | inr EAmbiguous => inr EAmbiguous      (* several matches, none with priority: never "absent" *)
           | inr _ =>
               if i_required d then inr EMissingInput else inl (dset n1 (inr (i_default d)) acc)
           end
